@@ -61,6 +61,8 @@ func createStructDesc(rv reflect.Value) (*structDesc, error) {
 	abiType := rtTypePtr(rt)
 	sdsmu.Lock()
 	defer sdsmu.Unlock()
+	vh(6, abiType, 0, 0)
+	defer vh(7, abiType, 0, 0)
 	if sd := sds.Get(abiType); sd != nil {
 		return sd, nil
 	}
@@ -94,6 +96,7 @@ func commitPrefetch() {
 }
 
 func rollbackPrefetch() {
+	vh(10, uintptr(len(prefetchJournal)), uintptr(len(sdLinkJournal)), 0)
 	for _, t := range prefetchJournal {
 		delete(prefetchStructDescCache, t)
 	}
@@ -113,6 +116,7 @@ func newStructDescAndPrefetch(t reflect.Type) (*structDesc, error) {
 	}
 	prefetchStructDescCache[t] = sd
 	prefetchJournal = append(prefetchJournal, t)
+	vh(8, rtTypePtr(t), 0, 0)
 	if err := prefetchSubStructDesc(sd); err != nil {
 		delete(prefetchStructDescCache, t)
 		return nil, err
@@ -153,6 +157,7 @@ func fetchStructDesc(t *tType) error {
 	}
 	t.Sd = sd
 	sdLinkJournal = append(sdLinkJournal, t)
+	vh(9, rtTypePtr(t.RT), 0, 0)
 	return nil
 }
 
